@@ -128,7 +128,7 @@ def extract():
 EXPECTED = {
     "static_eval_rq_operator": "a572537d8e8e7f61e2684f486de7c36ecc1e0d9b",   # since /repo 222f71a: std.neg uses checked_neg (i64::MIN is left unevaluated)
     "static_eval_case": "064f0ff64a52050e0b460ee52b2d182231356856",
-    "maybe_static_eval": "2fd1ac5c225a8e2597a05cf0625b0dc05934ffaf",
+    "maybe_static_eval": "20fb253d25fe6432701f1d0b5366053a7cfb0797",   # since /repo 3056744 (C10-F7): every case branch passes expect_value (an error for a module / table variable in the place of a value -- identifiers the expression model does not have) before static_eval_case; folding unchanged
     "is_temporal": "7c715063ddba4cdef69036463f130cd473c6a43b",   # date/time literals are never folded (outside the value model)
     "in": "79c6235af378c429a666dbc3afb2245d82e9a4d6",
     "normalizer": "fae9f35249ad32c51815e853df76d3f2ae7d29e9",
